@@ -282,7 +282,8 @@ def main(spec_name, argv):
             ent = driver.is_known(spec.prop, sig, known)
             path = None
             if ent is None:
-                if args.no_minimise:
+                nunknown = sum(1 for f in findings if f['replay'])
+                if args.no_minimise or nunknown >= 4:
                     doc = make_replay_doc(spec, rec, rec['scenario'],
                                           rec['preempts'], rec['digest'], {})
                 else:
